@@ -147,3 +147,18 @@ Lemma aget_addref k k' x l : aget k (addref k' x l) = if N.eqb k k' then sadd x 
 Proof. unfold aget at 1. rewrite alookup_addref. destruct (N.eqb k k'); reflexivity. Qed.
 Lemma aget_nonempty_amem k l x : mem x (aget k l) = true -> amem k l = true.
 Proof. unfold aget, amem. destruct (alookup k l); [reflexivity | discriminate]. Qed.
+
+Lemma NoDup_app_intro {A} (a b : list A) :
+  NoDup a -> NoDup b -> (forall x, In x a -> In x b -> False) -> NoDup (a ++ b).
+Proof.
+  induction a as [|y a IH]; intros Ha Hb Hd; cbn [app]; [exact Hb|].
+  inversion Ha; subst. constructor.
+  - intro Hin. apply in_app_or in Hin. destruct Hin as [Hin|Hin]; [contradiction|].
+    apply (Hd y); [left; reflexivity | exact Hin].
+  - apply IH; auto. intros x Hx Hx'. apply (Hd x); [right; exact Hx | exact Hx'].
+Qed.
+
+Lemma NoDup_app_right {A} (a b : list A) : NoDup (a ++ b) -> NoDup b.
+Proof.
+  induction a as [|y a IH]; cbn [app]; intro H; [exact H|]. inversion H; subst. auto.
+Qed.
